@@ -2,7 +2,10 @@
 from . import regcommon, worldcommon
 
 THEOREMS = ["ZI.Registry.lookupRec_eq_first", "ZI.Registry.mem_rpaths", "ZI.Registry.C04_sound", "ZI.Registry.C04_complete", "ZI.Registry.C04_best",
-            "ZI.Registry.rpaths_first_position", "ZI.Registry.C04_chain", "ZI.Lookup.lookupRec_eq_first"]
+            "ZI.Registry.rpaths_first_position", "ZI.Registry.C04_chain", "ZI.Lookup.lookupRec_eq_first",
+            "ZI.Registry.C04_extInv", "ZI.Registry.C04_extendors_content", "ZI.Registry.C04_provided_count_ne_zero", "ZI.Registry.C04_extendors_nodup",
+            "ZI.Registry.C04_extendors_order", "ZI.Registry.C04_most_general", "ZI.Registry.C04_most_general_lex", "ZI.Registry.C04_most_general_lookup",
+            "ZI.Registry.C04_guard", "ZI.Registry.C04_count_ge", "ZI.Registry.C04_lookup_complete", "ZI.Registry.C05_registry_transparent_lookup"]
 PROFILE = dict(weights=[6, 1, 1, 0.5, 0.7, 0.1, 0], queries=["lookup", "lookup1", "lookupAll"], nregs=(1, 3), extra_queries=4,
                arity=[0, 1, 1, 2, 2, 2, 3])
 # the most specific registration *for the specifications as they are now*: histories with declaration / hierarchy changes
